@@ -231,6 +231,7 @@ def ensure_src_facts():
         codec_derive = locked_codec_derive_src()
         cmd = [SRCFACTS_BIN, "--out", out + ".tmp",
                "--root", "lib=" + os.path.join(REPO, "src"),
+               "--root", "test_suite=" + os.path.join(REPO, "test_suite", "tests"),
                "--root", "derive=" + os.path.join(REPO, "derive", "src"),
                "--root", "codec_derive=" + codec_derive]
         r = subprocess.run(cmd, capture_output=True, text=True)
